@@ -425,12 +425,16 @@ pub fn run_property(p: &dyn Property, tier: Tier, seed: u64) -> RunOutcome {
     } else {
         run_workers_as_processes(p, tier, seed, threads, per)
     };
+    let mut workers_failed = 0u64;
     for (st, r) in results {
         total.merge(st);
         if let Some((case, fl)) = r {
+            workers_failed += 1;
             failures.push((case, fl, "generated".into()));
         }
     }
+    // how many of the independent workers found a failure (a margin for the sensitivity runs)
+    total.count("workers_with_failure", workers_failed);
 
     // known findings hit (and skipped) by the workers
     let mut known_from_workers: Vec<(String, u64)> = total.known_hits.iter().map(|(k, v)| (k.clone(), *v)).collect();
@@ -547,7 +551,7 @@ pub fn run_property(p: &dyn Property, tier: Tier, seed: u64) -> RunOutcome {
         return RunOutcome { exit: 2 };
     }
     println!(
-        "{} {}: cases={} evaluations={} nontrivial={} violations={} known={} wall={:.1}s",
+        "{} {}: cases={} evaluations={} nontrivial={} violations={} known={} workers_failed={}/{} wall={:.1}s",
         p.id(),
         tier.name(),
         total.cases,
@@ -555,6 +559,8 @@ pub fn run_property(p: &dyn Property, tier: Tier, seed: u64) -> RunOutcome {
         total.nontrivial.len(),
         violations,
         known_printed.len(),
+        workers_failed,
+        threads,
         wall
     );
     if violations > 0 {
